@@ -71,7 +71,7 @@ func c19child(args []string) {
 			for i := 0; i < iters; i++ {
 				switch {
 				case g == 0 && i%50 == 0:
-					cl.Update(mk(3 + i%5))
+					cl.Update(mk(1 + (i/50)%9))
 				default:
 					snap := cl.SnapshotForClientIP(ip)
 					if len(snap) > 0 {
